@@ -1290,7 +1290,7 @@ def _job_fullpath(job):
         # a far-apart edit as well
         case("source-size+7-mtime+3600", C, extra=" ;; x\n\n", mtime=T + 3600)
         # a source dated beyond the 32-bit range of the header's mtime field (file systems allow it)
-        case("source-mtime-2^32+%d" % (T % 100000), C, mtime=2**32 + T % 100000)
+        case("source-mtime+2^32", C, mtime=2**32 + T % 100000)
     out["writer"] = wstats
     return out
 
@@ -1391,8 +1391,9 @@ def _run_children(specs, workers=None):
             p, sp, logf, t0 = running[i]
             rc = p.poll()
             if rc is None:
-                if time.time() - t0 > 1500:
-                    p.kill()
+                if time.time() - t0 > 2400:
+                    for q, _, _, _ in running.values():
+                        q.kill()
                     raise env.HarnessError("C14 child timed out: %s" % sp["job"]["kind"])
                 continue
             logf.close()
@@ -1666,7 +1667,7 @@ def _agg_fail(res, part, ns, fails, extra_case=None, **kw):
         kw2 = dict(kw)
         # model of F-14b: the loader compares the 32-bit header fields with the unmasked source mtime, so ONLY a source dated
         # outside 0..2^32-1 seconds gets a cache that is written correctly and yet never served
-        if kind == "rewritten-cache-not-served" and f["count"] == len(f["first"]) and all(str(l).startswith("source-mtime-2^32+") for l in f["first"]):
+        if kind == "rewritten-cache-not-served" and f["count"] == len(f["first"]) and all(str(l) == "source-mtime+2^32" for l in f["first"]):
             kw2["explained_by"] = "F-14b-mtime-beyond-32-bits"
         res.fail(kind, case, count=f["count"], first_labels=f["first"], detail=f["detail"], **kw2)
 
